@@ -143,6 +143,21 @@ func (c08) Exec(x *Exec, ci interface{}) *Verdict {
 			// fault configuration: what was delivered is whole members followed
 			// by at most the torn part of the one failed write
 			x.Probe("fault_fired")
+			// everything before the failed write is whole members, and nothing
+			// follows the (possibly torn) failed write
+			for _, j := range file.Journal {
+				if j.Err {
+					if _, stop, why := ParseBGZF(img[:j.Off]); why != nil || stop != j.Off {
+						vd.V = Mismatch("fault-partial-member", "wc=%d: the %d bytes delivered before the failed write %d are not whole members: %v", wc, j.Off, j.Call, why)
+						return vd
+					}
+					if len(img) != j.Off+j.N {
+						vd.V = Mismatch("fault-append-after-failure", "wc=%d: %d bytes were appended after the failed write %d", wc, len(img)-j.Off-j.N, j.Call)
+						return vd
+					}
+					break
+				}
+			}
 			if closedOK {
 				vd.V = Mismatch("fault-swallowed", "wc=%d: underlying write failed (%v) but Close returned nil", wc, file.Fired)
 				return vd
